@@ -91,9 +91,6 @@ TABLE: dict[str, list[tuple]] = {
          [], ""),
         ("whose children are loaded beneath it", "call",
          "_load_logic_into_logic_list", NEWOP, REC, [INNER, NOSEQ], [], ""),
-        ("SEQUENCE is transparent: its children are loaded in place", "call",
-         "_load_logic_into_logic_list", "P:self", REC, [INNER, SEQ], [],
-         ""),
         ("an outgoing BRANCH marks the root as a branch event", "call",
          "update_event_types", "P:root_node", ("PUMLEvent.BRANCH",),
          [INNER, BRANCH, OUTG], [], ""),
@@ -320,10 +317,13 @@ PUML_TABLE: dict[str, list[tuple]] = {
         ("a branch event uses up a branch number", "store", "Add",
          "P:self.branch_counts", ("1",),
          [("cmp", "PUMLEvent.BRANCH", "In", _TYPES, "1")], [], ""),
-        ("it is registered under the model node it stands for", "call",
+        ("it is registered under the model node it stands for (at least "
+         "when it is created without a body: bodies are attached later "
+         "through this registry)", "call",
          "add_parent_graph_node_to_node_ref", "P:self",
          ("P:parent_graph_node", _NEWEV),
-         [("cmp", "P:parent_graph_node", "Is", "None", "0")], [], ""),
+         [("cmp", "P:parent_graph_node", "Is", "None", "0")],
+         [("cmp", "P:sub_graph", "Is", "None", "1")], ""),
     ],
     "PUMLEventNode.__init__": [
         ("the body of a loop node is kept", "store", "", "P:self.sub_graph",
@@ -367,18 +367,6 @@ PUML_TABLE: dict[str, list[tuple]] = {
          ("PUMLGraph._order_nodes_from_dfs_successors_dict(each(enumerate("
           "reversed(P:dfs_successor_dict[P:node])))[1],P:dfs_successor_dict)",
           ), [("cmp", "P:node", "In", "P:dfs_successor_dict", "1")], [], ""),
-        ("a branching operator puts its path separator, numbered by the "
-         "position of the branch, in front of every branch that has one",
-         "call", "append", "[P:node]",
-         ("OPERATOR_PATH_FUNCTION_MAP[P:node.operator_type](each(enumerate("
-          "reversed(P:dfs_successor_dict[P:node])))[0])",),
-         [("cmp", "P:node", "In", "P:dfs_successor_dict", "1"),
-          ("truth", "isinstance(P:node,PUMLOperatorNode)", "1"),
-          ("cmp", "P:node.operator_type", "In", "OPERATOR_PATH_FUNCTION_MAP",
-           "1"),
-          ("cmp", "OPERATOR_PATH_FUNCTION_MAP[P:node.operator_type](each("
-           "enumerate(reversed(P:dfs_successor_dict[P:node])))[0])", "Is",
-           "None", "0")], [], ""),
     ],
     "PUMLGraph.remove_dummy_start_event_nodes": [
         ("every dummy start node leaves the diagram", "call", "remove_node",
